@@ -165,6 +165,70 @@ func c18Import(c *vc.Ctx, lh *lockHist, exp servertypes.ExportedApp, viol func(s
 		}
 		c.Count("module_stores_compared", 1)
 	}
+	// importing the same export again gives the same state, byte for byte: every node of the new chain starts from this
+	// genesis, and a difference in any store (say a queue rebuilt in another order) splits them at the first block.
+	// Three further imports; seven when the boarding queue holds two or more voters.
+	again := 3
+	if len(src.Relayer.Voters) > 0 {
+		nq := 0
+		for _, v := range src.Relayer.Voters {
+			if v.Status == relayertypes.VOTER_STATUS_ON_BOARDING || v.Status == relayertypes.VOTER_STATUS_OFF_BOARDING {
+				nq++
+			}
+		}
+		if nq >= 2 {
+			again = 7
+			c.Count("exports_with_two_or_more_queued_voters", 1)
+		}
+	}
+	first := map[string]map[string]string{}
+	for _, mod := range []string{"relayer", "bitcoin", "locking", "goat"} {
+		if d, err := n.DumpStore(mod, true); err == nil {
+			first[mod] = d
+		}
+	}
+	for k := 0; k < again; k++ {
+		db2, dir2, err := w.NewDB(fmt.Sprintf("imp-%d-again-%d", exp.Height, k))
+		if err != nil {
+			c.Inconclusive("db: %v", err)
+			break
+		}
+		n2, err := w.OpenNode(0, db2, dir2)
+		if err != nil {
+			c.Inconclusive("open node: %v", err)
+			break
+		}
+		if _, err := n2.InitFromExport(exp, now); err != nil {
+			viol("an export that was imported once cannot be imported again", fmt.Sprintf("export at height %d: %v", exp.Height-1, err))
+			n2.Close()
+			break
+		}
+		for mod, d1 := range first {
+			d2, err := n2.DumpStore(mod, true)
+			if err != nil {
+				c.Inconclusive("store dump %s: %v", mod, err)
+				continue
+			}
+			c.Eval(1)
+			var diffs []string
+			for k1, v1 := range d1 {
+				if v2, ok := d2[k1]; !ok || v2 != v1 {
+					diffs = append(diffs, fmt.Sprintf("key %s: first import %s, import %d %s", k1, v1, k+2, d2[k1]))
+				}
+			}
+			for k2 := range d2 {
+				if _, ok := d1[k2]; !ok {
+					diffs = append(diffs, fmt.Sprintf("key %s only in import %d", k2, k+2))
+				}
+			}
+			sort.Strings(diffs)
+			if len(diffs) > 0 {
+				viol("importing the same export twice gives different states: "+mod+" prefix "+diffs[0][4:6], fmt.Sprintf("export at height %d (%v): %d differing keys, first: %s", exp.Height-1, traits, len(diffs), diffs[0]))
+			}
+		}
+		c.Count("repeated_imports_compared", 1)
+		n2.Close()
+	}
 	// keep running: 20 blocks with the locking workload and the invariant monitors
 	ch := world.ChainFromExport(w, n, exp, now)
 	ih := &lockHist{c: c, cfg: lh.cfg, r: world.NewRand(c.Seed, "c18-continue", int(exp.Height)), ch: ch, unlocks: map[uint64]*unlockRec{}, claims: map[uint64]*claimRec{}, absentRun: map[int]int{}, tokens: lh.tokens}
@@ -407,6 +471,9 @@ func c18History(c *vc.Ctx, idx int) {
 		return cm
 	}
 	imports := 0
+	// directed: the execution layer asks for six fresh voters at once, all of them register in the next blocks, and the
+	// state is exported while they wait in the boarding queue (the next election would drain it)
+	rushAt := 14 + idx%9
 	for blk := 0; blk < cfg.Blocks && !lh.failed; blk++ {
 		if !b.refreshGroup() {
 			return
@@ -415,6 +482,16 @@ func c18History(c *vc.Ctx, idx int) {
 		c05Gen(wm, blk, cfg.Blocks, idx, addrPool)
 		// relayer membership: pending voters, boarding voters, off-boarding members
 		var rq goattypes.RelayerRequests
+		if blk == rushAt {
+			for k := 0; k < 6; k++ {
+				m := candMember(len(cands))
+				kh := sha256.Sum256(m.BLSPub)
+				cands = append(cands, &candidate{m: m, regHeight: uint64(lh.ch.Height + 1), hashOK: true, state: "pending"})
+				rq.Adds = append(rq.Adds, &goattypes.AddVoterRequest{Voter: common.BytesToAddress(m.Addr), Pubkey: common.BytesToHash(kh[:])})
+			}
+			lh.logf("EL: add six voter candidates at once")
+		}
+		rush := blk > rushAt && blk <= rushAt+2
 		if r.Intn(6) == 0 {
 			m := candMember(len(cands))
 			kh := sha256.Sum256(m.BLSPub)
@@ -427,7 +504,7 @@ func c18History(c *vc.Ctx, idx int) {
 			lh.logf("EL: remove a voter")
 		}
 		for ci, cd := range cands {
-			if cd.state == "pending" && uint64(lh.ch.Height) >= cd.regHeight && r.Intn(3) == 0 {
+			if cd.state == "pending" && uint64(lh.ch.Height) >= cd.regHeight && (r.Intn(3) == 0 || rush) {
 				kh := sha256.Sum256(cd.m.BLSPub)
 				txp, blsp := voterProofs(cd.m, lh.ch.W.Cfg.ChainID, b.group.Proposer.AddrStr, b.group.Epoch, cd.regHeight, kh[:])
 				cd := cd
@@ -447,7 +524,17 @@ func c18History(c *vc.Ctx, idx int) {
 		if lh.vsetEnded {
 			break // the last validator left: CometBFT never commits this block, the state is not a reachable one
 		}
-		if blk >= 10 && (blk%13 == 5 || r.Intn(25) == 0) && imports < c.Pick(5, 12) {
+		boarding := 0
+		for _, cd := range cands {
+			if cd.state == "boarding" {
+				boarding++
+			}
+		}
+		rushExport := blk == rushAt+2 && boarding >= 2
+		if rushExport {
+			c.Count("exports_taken_while_several_voters_board", 1)
+		}
+		if blk >= 10 && (blk%13 == 5 || r.Intn(25) == 0 || rushExport) && (imports < c.Pick(5, 12) || rushExport) {
 			exp, err := lh.ch.Node().Export()
 			if err != nil {
 				viol("a reachable state cannot be exported", err.Error())
@@ -466,7 +553,7 @@ func c18History(c *vc.Ctx, idx int) {
 func init() {
 	vc.Register(&vc.Check{
 		ID: "C18", Title: "Exported state re-imports to an equivalent, invariant-respecting state", Level: "exploration",
-		Rule: "one case = one rich source history (70/160 blocks: the locking workload with creates, dust locks, unlock bursts, weight/threshold changes, absences, evidence; deposits and withdrawals in every stage; relayer key rotation; pending, boarding and off-boarding voters; tax/minimum changes) from which 5/12 states are exported at irregular heights; each export is imported into a fresh node exactly as CometBFT starts a chain from it (InitChain with initial height = exported height and validators = exported validators); " +
+		Rule: "one case = one rich source history (70/160 blocks: the locking workload with creates, dust locks, unlock bursts, weight/threshold changes, absences, evidence; deposits and withdrawals in every stage; relayer key rotation; pending, boarding and off-boarding voters; tax/minimum changes) from which 5/12 states are exported at irregular heights; each export is imported into a fresh node exactly as CometBFT starts a chain from it (InitChain with initial height = exported height and validators = exported validators), and then three (seven with two or more queued voters; a directed six-candidate boarding rush is exported while they wait) more times, the imports' raw stores compared byte for byte; " +
 			"oracles: the import neither errors nor panics; InitChain's validators equal the exported active set; a module-by-module export of the imported state equals the first export (canonical JSON); the imported chain then runs 14/30 blocks of the locking workload (first block with the empty LastCommit CometBFT sends at the initial height) during which FinalizeBlock never fails, honest proposals are accepted, the block message succeeds, and the C11 (locked funds), C12 (rewards) and C13 (validator set) monitors hold; finally every validator, withdrawal, credited deposit and voter of the export can be queried. Non-trivial = an exported state; distinct = the set of state traits it has (validator/voter/withdrawal statuses present, queues, slashing, parameters).",
 		Assume: []string{"queries are compared after the imported chain has advanced; only facts the locking workload cannot change are compared"},
 		Cases:  func(tier string) int { return map[string]int{"quick": 32, "thorough": 120}[tier] },
